@@ -46,6 +46,14 @@ SCRIPTS_T = {
 }
 
 
+SCRIPTS_T['history'] = ('import sys, athlib\nyear = YEAR\nage = {age}\nperf = {perf}\ng = G\nev = EV\n' + hc.FRESH_SRC +
+                        'ag = athlib.ag2015 if year == 2015 else athlib.ag2023\n'
+                        "og = 'f' if g == 'm' else 'm'\n"
+                        "three = lambda: (ag.calculate_factor(g, age, ev), ag.world_best(g, ev), ag.calculate_age_grade(g, age, ev, perf))\n"
+                        "a = fresh(three)\nhere(lambda: (ag.world_best(og, ev), ag.calculate_factor(og, 50, ev), ag.calculate_age_grade(og, 50, ev, perf)))\nb = here(three)\n"
+                        "print(year, g, ev, 'age', age, 'perf', perf, '-> fresh', a, '; after the same questions for the other gender', b)\nsys.exit(0 if a == b else 1)\n")
+
+
 def scripts(year, g, ev):
     return {k: v.replace('YEAR', repr(year)).replace('EV', repr(ev)).replace('G', repr(g), 1) if k != 'spelling' else
             v.replace('YEAR', repr(year)).replace('EV0 = EV', 'EV0 = %r' % ev).replace('G0 = G', 'G0 = %r' % g) for k, v in SCRIPTS_T.items()}
@@ -90,6 +98,48 @@ def body_main(year, g, ev, lo, hi, best):
         gt = gr.term if isinstance(gr, SymFloat) else realval(gr)
         wt = want.term if isinstance(want, SymFloat) else realval(want)
         eng.check(gt == wt, 'grade')
+        return {'inputs': ins, 'observe': []}
+    return body
+
+
+def body_history(year, g, ev, lo, hi, best):
+    """factor, best and grade for one gender after the same grader object answered the same questions for the other gender equal the
+    answers obtained once the library state has been put back (per-object caches, scratch attributes such as _fx / _pfac)"""
+    def body(R):
+        eng = E.cur()
+        ag = grader(year)
+        a = z3.Real(eng.fresh_name('age'))
+        eng.add(z3.And(a >= lo, a <= hi))
+        age = SymFloat(a)
+        p = z3.Real(eng.fresh_name('perf'))
+        eng.add(z3.And(p >= realval(best) / 4, p <= realval(best) * 8, p > 0))
+        perf = SymFloat(p)
+        ins = {'age': age, 'perf': perf}
+        R.partial = {'inputs': ins}
+        og = 'f' if g == 'm' else 'm'
+        for call in (lambda: ag.world_best(og, ev), lambda: ag.calculate_factor(og, 50, ev), lambda: ag.calculate_age_grade(og, 50, ev, perf)):
+            try:
+                call()
+            except Exception:
+                pass
+
+        def three():
+            try:
+                return (ag.calculate_factor(g, age, ev), ag.world_best(g, ev), ag.calculate_age_grade(g, age, ev, perf))
+            except Exception as e:
+                return ('raises', type(e).__name__)
+        r1 = three()
+        hc.reset_library_state()
+        r0 = three()
+        if (r1[0] == 'raises') != (r0[0] == 'raises') or (r1[0] == 'raises' and r1 != r0):
+            raise hc.PathFail('history', 'fresh %r, after the other gender %r' % (r0[:2], r1[:2]))
+        if r1[0] != 'raises':
+            parts = []
+            for x, y in zip(r0, r1):
+                xt = x.term if isinstance(x, SymFloat) else realval(x)
+                yt = y.term if isinstance(y, SymFloat) else realval(y)
+                parts.append(xt == yt)
+            eng.check(z3.And(parts), 'history')
         return {'inputs': ins, 'observe': []}
     return body
 
@@ -153,6 +203,8 @@ def worker(job):
             R.explore(body_main(year, g, ev, job[4], job[5], job[6]), label)
         elif kind == 'order':
             R.explore(body_order(year, g, ev, job[4], job[5]), label + ' age %s' % job[4])
+        elif kind == 'history':
+            R.explore(body_history(year, g, ev, job[4], job[5], job[6]), label)
         else:
             R.explore(body_spelling(year, g, ev, job[4], job[5]), label + ' age %s' % job[4])
     except E.Budget as e:
@@ -264,6 +316,11 @@ def run(chk, only=None):
         ages = data['ages']
         for g in 'mf':
             rows = data[g]
+            og_events = set(r[0] for r in data['f' if g == 'm' else 'm'])
+            for row in rows:
+                lo = first_col(row, ages)
+                if lo is not None and row[2] and row[0] in og_events:
+                    jobs.append(('history', year, g, row[0], max(lo, 48.5), max(lo, 48.5) + 3, row[2]))
             if quick:
                 rows = [r for r in rows if rng.random() < 0.3]
             for row in rows:
@@ -292,6 +349,7 @@ def run(chk, only=None):
     chk.bounds = {'tables': [2015, 2023], 'rows': 'seeded 30% of the rows' if quick else 'every tabulated row', 'age': ('three windows: first non-null column + 2.5 years, 48.5-51.5, last column - 1.5 .. + 20 (real-valued)' if quick else 'first non-null column .. last column + 20 (real-valued)'),
                   'performance': 'best/4 .. 8*best (grade clause), adjacent 0.01-grid marks from best/3 to 6*best (order clause)',
                   'spellings': 'gender: first letter either case + 0-2 cells over "aleALE "; event: every letter either case'}
+    chk.bounds['history'] = 'every row tabulated for both genders: factor, best and grade after the same grader object answered for the other gender == the answers after the library state is put back'
     chk.outside = ['strictness of "grades higher" (only "never lower" is proved in the float abstraction)', 'wma_athlon_age_grade (the combined-events table has no open bests)',
                    'performances given as h:mm:ss text (parse_hms is C06)']
     if not only:
